@@ -5,7 +5,7 @@ import lib, storelib as S, arithlib as A
 from lib import Result, model_call, run_sharded, e_fmt, e_list, Reader, outcome
 
 RULE = ('all codes for n_word<=4 (quick) / <=6 (thorough), boundary/random codes for n_word<=32 with shift counts 0..n_word+3 subject to n_word+n<=62, and (stratum C) words 33..96 with counts to 70 (results to 166 bits, codes at and next to powers of two), signed and unsigned, n_frac in {0, n_word/2}, '
-        'the three shifting modes (expand, trunc, keep), scalars and arrays (array-wide min_pow2 and word growth), shift counts given as Python or NumPy integers. Checked with exact rationals on the implementation output: expand: value(x<<n) = value*2^n, '
+        'the three shifting modes (expand, trunc, keep), scalars, elements taken out of arrays by indexing, and arrays (array-wide min_pow2 and word growth), shift counts given as Python or NumPy integers. Checked with exact rationals on the implementation output: expand: value(x<<n) = value*2^n, '
         'value(x>>n) = value/2^n, no flag; trunc/keep: format unchanged, x>>n = floor(code/2^n), x<<n exact when representable else inside the range; shift by zero is the identity; operand unchanged; and against the model. '
         'Non-trivial = code != 0 and n > 0; distinct by full input.')
 ASSUMPTIONS = []
@@ -18,6 +18,8 @@ def run_cases(cases, res, stratum):
         s, nw, nf = c['f']; n = c['n']; codes = c['codes']; arr = len(codes) > 1
         try:
             x = A.mk(fx, np, s, nw, nf, codes if arr else codes[0], shape=(len(codes),) if arr else None, shifting=c['mode'])
+            if not arr and c.get('elem'):       # the operand is an element taken out of an array by indexing (its raw value is a NumPy scalar)
+                x = A.mk(fx, np, s, nw, nf, [codes[0], 0] if c['elem'] == 1 else [0, 0, codes[0]], shape=(2,) if c['elem'] == 1 else (3,), shifting=c['mode'])[0 if c['elem'] == 1 else 2]
             nn = n
             if c.get('count') == 'np.int64': nn = np.int64(n)       # (the shift count as a NumPy integer, e.g. taken from np.arange)
             elif c.get('count') == 'np.uint8': nn = np.uint8(n)
@@ -102,7 +104,7 @@ def shard(shard, nshards, rng, tier, extra):
                         idx += 1
                         if idx % nshards != shard: continue
                         for code in range(lo, hi + 1):
-                            cases.append({'f': [s, nw, nf], 'codes': [code], 'n': n, 'mode': mode})
+                            cases.append({'f': [s, nw, nf], 'codes': [code], 'n': n, 'mode': mode, 'elem': (code + n) % 3})
                         cases.append({'f': [s, nw, nf], 'codes': [rng.randint(lo, hi) for _ in range(3)], 'n': n, 'mode': mode})
     run_cases(cases, res, 'A:all-codes-small')
     cases = []
@@ -113,7 +115,7 @@ def shard(shard, nshards, rng, tier, extra):
         def code():
             return rng.choice([lo, hi, 0, 1, -1 if s else 1, lo + 1, hi - 1, rng.randint(lo, hi), (rng.randint(lo, hi) >> rng.randint(0, 6)) << rng.randint(0, 6)])
         cs = [max(lo, min(hi, code())) for _ in range(k)]
-        cases.append({'f': [s, nw, nf], 'codes': cs, 'n': n, 'mode': rng.choice(MODES), 'count': rng.choice(['int', 'int', 'np.int64', 'np.uint8'])})
+        cases.append({'f': [s, nw, nf], 'codes': cs, 'n': n, 'mode': rng.choice(MODES), 'count': rng.choice(['int', 'int', 'np.int64', 'np.uint8']), 'elem': rng.choice([0, 0, 1, 2])})
     run_cases(cases, res, 'B:boundary-random-to-32')
     # C: wider words (33..96) and large counts: the shifted code leaves int64 / uint64, object arrays of Python integers
     cases = []
@@ -126,7 +128,7 @@ def shard(shard, nshards, rng, tier, extra):
             if s and rng.random() < 0.45: c = rng.choice([-c, -c - 1, lo, lo + 1, -1])
             return max(lo, min(hi, c))
         cs = [code() for _k in range(rng.choice([1, 1, 2, 3]))]
-        cases.append({'f': [s, nw, nf], 'codes': cs, 'n': n, 'mode': rng.choice(MODES), 'count': rng.choice(['int', 'int', 'np.int64', 'np.uint8'])})
+        cases.append({'f': [s, nw, nf], 'codes': cs, 'n': n, 'mode': rng.choice(MODES), 'count': rng.choice(['int', 'int', 'np.int64', 'np.uint8']), 'elem': rng.choice([0, 0, 1, 2])})
     run_cases(cases, res, 'C:wide-words-large-counts')
     res.exhaustive = True
     return res
